@@ -281,6 +281,47 @@ class World:
         self.regs = []  # names registered by the host program so far, in order
         self.dump = None  # list of per-step observables when requested
         self.last_obs = None
+        self.nesting = 0  # > 0 while an operation interleaved into another one (through the uf seam) is running
+
+    # -- interleaving: an operation issued by user code in the middle of another operation
+    def run_op(self, op):
+        nested = op.get("nested")
+        if not nested:
+            return getattr(self, "op_" + op["op"])(op)
+        box = {"ev": None, "exc": None}
+
+        def hook():
+            self.nesting += 1
+            try:
+                box["ev"] = getattr(self, "op_" + nested["op"])(nested)
+            except BaseException as e:  # noqa: BLE001 -- a Violation / harness error must not travel through formulae
+                box["exc"] = e
+            finally:
+                self.nesting -= 1
+
+        prelude.UF_HOOK[0] = hook
+        try:
+            ev = getattr(self, "op_" + op["op"])(op)
+        finally:
+            fired = prelude.UF_HOOK[0] is None
+            prelude.UF_HOOK[0] = None
+        if box["exc"] is not None:
+            raise box["exc"]
+        tag = f"{op['op']}<{nested['op']}"
+        if fired:
+            self.bump(f"fault.fired.interleave.{tag}")
+            if nested.get("root") is not None and nested.get("root") == op.get("root"):
+                self.probe("interleave_same_design")
+        else:
+            # uf was not called by this operation (it failed earlier, or the name resolves to something else):
+            # the other operation is issued right after it instead, so that the history keeps all its operations
+            self.bump("interleave.armed_not_fired")
+            box["ev"] = getattr(self, "op_" + nested["op"])(nested)
+        nev = box["ev"] or {}
+        ev["nested"] = f"{nested['op']}:{nev.get('outcome')}:{'in' if fired else 'after'}"
+        ev["sd"] = f"{ev.get('sd', '')}+{ev['nested']}+{nev.get('sd', '')}"
+        ev["nd"] = f"{ev.get('nd', '')}+{nev.get('nd', '')}"
+        return ev
 
     # -- bookkeeping helpers
     def bump(self, key, n=1):
@@ -345,7 +386,7 @@ class World:
                 fault["at"] = 1 + int(fault["frac"] * hi)
             at = fault["at"]
             flavour = fault.get("flavour", "base")
-        use_inj = self.inj is not None and (at is not None or self.count_lines)
+        use_inj = self.inj is not None and (at is not None or self.count_lines) and not self.nesting
         try:
             if use_inj:
                 value, wl = self.inj.run(fn, at=at, flavour=flavour, mode=mode, count_both=True)
@@ -413,14 +454,15 @@ class World:
         # its memory (and its id()) can be taken by a later frame -- what an identity-keyed cache must survive
         last_use = {}
         for j, o in enumerate(self.sc["ops"]):
-            for key in ("frame", "twin", "eval_frame"):
-                if o.get(key):
-                    last_use[o[key]] = j
+            for oo in (o, o.get("nested") or {}):
+                for key in ("frame", "twin", "eval_frame"):
+                    if oo.get(key):
+                        last_use[oo[key]] = j
         for i, op in enumerate(self.sc["ops"]):
             self.step = i
             self.last_obs = None
             try:
-                ev = getattr(self, "op_" + op["op"])(op)
+                ev = self.run_op(op)
                 self.after_step(op)
             except Violation as v:
                 violation = {
@@ -521,12 +563,13 @@ class World:
 
     def op_rebuild(self, op):
         src = None
-        for o in self.sc["ops"]:
+        flat = [oo for o in self.sc["ops"] for oo in (o, o.get("nested")) if oo]
+        for o in flat:
             if o.get("id") == op["of"] and o["op"] in ("build", "rebuild"):
                 src = o
         while src is not None and src["op"] == "rebuild":
             nxt = None
-            for o in self.sc["ops"]:
+            for o in flat:
                 if o.get("id") == src["of"] and o["op"] in ("build", "rebuild"):
                     nxt = o
             src = nxt
@@ -536,6 +579,7 @@ class World:
         new["id"] = op["id"]
         new["op"] = "rebuild"
         new["fault"] = None
+        new.pop("nested", None)
         ev = self.op_build(new, rebuild_of=op["of"] if op["of"] in self.designs else None)
         ev["op"] = "rebuild"
         return ev
@@ -735,7 +779,7 @@ class World:
         F.refill_in_place(self.frame_live[fid], op["spec"])
         self.frame_spec[fid] = op["spec"]
         self.frame_fp[fid] = F.frame_fingerprint(self.frame_live[fid])
-        for o in self.sc["ops"][self.step + 1:]:
+        for o in [oo for t in self.sc["ops"][self.step + 1:] for oo in (t, t.get("nested")) if oo]:
             if o.get("frame") == fid and o["op"] == "eval":
                 o["refilled"] = True
                 # identity / policy metadata no longer describe the refilled content
